@@ -224,7 +224,7 @@ class Runner:
                 evs = self.mutate_session(o, fr, cls, root)
                 if evs:
                     session("mutate", evs)
-        elif vk in ("dropreq", "enum"):
+        elif vk in ("dropreq", "enum", "nested"):
             ev, _ = self.ev_structure(w, cls, root)
             session(vk, [ev])
         elif vk in ("intval", "lit"):
@@ -261,7 +261,7 @@ class Runner:
         root, sk, evs = sess["root"], sess["sk"], sess["ev"]
         cls = self.pkg.root_class(root)
         out = []
-        if sk in ("parse", "dropspecial", "dropreq", "enum"):
+        if sk in ("parse", "dropspecial", "dropreq", "enum", "nested"):
             ev, obj = self.ev_structure(evs[0]["j"], cls, root)
             out.append(ev)
             if ev["ok"] and sk == "parse":
